@@ -5,6 +5,7 @@ Three parts:
     fetch, exists, get on symbolic non-negative bounds; a result list is abstracted by its symbolic length.
  B. LIMIT rendering per dialect (z3 LIA): for each (limit, offset) the real construct_sql_ast + dialect builder emit the
     LIMIT/OFFSET text; its window under the dialect's rules equals Python's window for ALL result lengths n.
+ D. bulk delete: the DELETE statement the real construct_delete_sql_ast emits removes exactly the rows the query selects (z3).
  C. E1 over method chains: ordered / filtered / distinct / sliced / aggregated queries on a symbolic database; the SQL text's
     rows (with positions) equal the Python list operation on the full ordered result R; counterexamples replayed on SQLite.
 """
@@ -214,6 +215,46 @@ def check_chain(db, S, prog, exclude):
     return out
 
 
+DELETE_PROGRAMS = [
+    '(p for p in P)', '(p for p in P if p.a > x)', '(p for p in P if p.b is None)', '(p for p in P if not p.b)', '(p for p in P if p.a > x and p.f)',
+    '(p for p in P if p.s.startswith(y))', '(p for p in P if p.g is None)', '(p for p in P if p.g.n == x)', '(p for p in P if p.g.name == y or p.a < x)',
+    '(p for p in P if p.a in (1, x))', '(p for p in P if p.b not in (0, x))', '(p for p in P if p.u is None or p.u == y)',
+    '(p for g in G for p in g.ps if g.n > x)', '(p for p in P for g in G if p.g == g and g.n is None)', '(p for p in P if p.g in (g for g in G if g.n > x))',
+    '(p for p in P if p.a == max(q.a for q in P))', '(p for p in P if exists(q for q in P if q.a > p.a))',
+    '(g for g in G)', '(g for g in G if not g.ps)', '(g for g in G if len(g.ps) > x)', '(g for g in G if g.n is None and not g.tags)', '(g for g in G if x in g.ps.a)',
+    '(g for g in G if exists(p for p in g.ps if p.a > x))', '(g for g in G for p in g.ps if p.f)', '(t for t in T if not t.gs)', '(t for t in T if t.w > x)',
+    '(p for p in P if p.a > x and p.a < x)', '(p for p in P if p.a >= x or p.a < x)',
+]
+
+
+def bulk_delete(rep, db, S, tier, exclude):
+    """part D: Query.delete(bulk=True) removes exactly the rows the query selects"""
+    n = 0
+    for src in DELETE_PROGRAMS:
+        names = {x.id for x in ast.walk(ast.parse(src)) if isinstance(x, ast.Name)}
+        scope = {k: v for k, v in {'x': ('int', 1), 'y': ('str', 'a')}.items() if k in names}
+        prog = Program(src, scope, 'string')
+        name = 'select%s.delete(bulk=True)' % src
+        n += 1
+        res = e1.decide_delete(db, S, prog, 'SQLite', 15000, exclude_regions=exclude)
+        v = res['verdict']
+        if v == 'rejected': rep.add(Ob(name, 'z3', REJECTED, detail=res['detail'])); continue
+        if v == 'unmodelled': rep.add(Ob(name, 'z3', INCONCLUSIVE, detail='unmodelled: ' + res['detail'])); continue
+        if v == 'unknown': rep.add(Ob(name, 'z3', INCONCLUSIVE, detail=res.get('detail', ''))); continue
+        if v == 'unsat': rep.add(Ob(name, 'z3', HOLDS, detail=res['sql'], time_s=res['time_s'])); continue
+        md = res['model']
+        try:
+            real = e1.run_real_delete(db, prog, md)
+            how = 'real delete removed %r' % (real,)
+            reproduced = real != md['selected_by_python']
+            if real != md['deleted_by_sql']: reproduced, how = False, 'SQL model disagrees with the real engine: real=%r predicted=%r (harness error)' % (real, md['deleted_by_sql'])
+        except Exception as ex:
+            reproduced, how = None, 'real delete raised %s: %s' % (type(ex).__name__, str(ex)[:100])
+        rep.add(Ob(name, 'z3', CEX, detail='%s | %s; the query selects %r' % (res['sql'], how, md['selected_by_python']), cex=md, reproduced=reproduced, key='bulk-delete',
+                   time_s=res['time_s'], replay='# C24 bulk delete: %s on %r removes %r, the query selects %r\nraise SystemExit(1)\n' % (name, md['tables'], md['deleted_by_sql'], md['selected_by_python'])))
+    return n
+
+
 def run(tier, seed, only=None):
     from pony.orm import core, sqltranslation as T, sqlbuilding as B
     rep = Report('C24', 'translation_validation',
@@ -222,7 +263,8 @@ def run(tier, seed, only=None):
                  'C: E1 over method chains - SQL rows with positions vs the Python list operation on the full ordered result, decided by z3 '
                  'for all table contents; replay on real SQLite.')
     rep.fn(T.combine_limit_and_offset, core.Query.__getitem__, core.Query.limit, core.Query.page, core.Query.first, core.Query.get, core.Query.exists,
-           core.Query._aggregate, core.Query._order_by, core.Query.filter, T.SQLTranslator.construct_sql_ast, B.SQLBuilder.LIMIT)
+           core.Query._aggregate, core.Query._order_by, core.Query.filter, T.SQLTranslator.construct_sql_ast, B.SQLBuilder.LIMIT,
+           core.Query.delete, T.SQLTranslator.construct_delete_sql_ast)
     rng = random.Random(seed)
     specs = [dict(module='checks.h_c24', fn=f, cond_timeout=90 if tier == 'quick' else 600, path_timeout=45) for f in HARNESSES]
     if only: specs = [s for s in specs if only in s['fn']]
@@ -240,6 +282,8 @@ def run(tier, seed, only=None):
         for ob in check_chain(db, S, prog, exclude):
             rep.add(ob)
             if ob.verdict == CEX: rep.sample({'program': prog.describe(), 'counterexample': ob.cex, 'key': ob.key}, limit=6)
+    if not only or only == 'delete':
+        n += bulk_delete(rep, db, symdb.build(db, R=2, strlen=2), tier, exclude)
     rep.programs = n + len(HARNESSES)
     rep.bounds = {'A': 'unbounded ints (n >= 0, bounds >= 0 or None)', 'B': 'limit/offset from a fixed list, all n >= 0',
                   'C': '%d rows per table, strings len <= 2, %d method chains (orders x slices/limit/page/first/exists/aggregates/distinct/filters)' % (R, n)}
